@@ -23,6 +23,9 @@ var c11atoms = []string{
 	"[a-j]", "[a-k]", "[a-j][a-j]", "|x",
 	// members outside ASCII (a class is expanded rune by rune, not byte by byte)
 	"[aé]", "é", "[à-ã]",
+	// a one-valued part that the regex parser does not fuse with its neighbour, between other parts; classes of
+	// several ranges
+	"(b)[ab]", "b{2}[ab]", "[ac]", "[0-2a-b]",
 }
 
 // contexts wrap a body; %s is the body
